@@ -12,6 +12,7 @@ import copy
 import fractions
 import random
 import time
+import warnings
 from datetime import datetime
 
 from harness.core import q, z, zlit, coq_list, coq_bool, coq_opt, coq_str
@@ -61,6 +62,8 @@ def build_row(row):
         return [float(v) for v in vals]
     if kind == "np64":
         return [np.float64(v) for v in vals]
+    if kind == "np32":
+        return [np.float32(v) for v in vals]          # vals are float32-representable (see rand_vals)
     if kind == "array":
         return np.array([float(v) for v in vals])
     if kind == "intarray":
@@ -91,11 +94,15 @@ def num_of(name):
 def rand_vals(rng, kind, length):
     if kind in ("int", "intarray"):
         return [float(rng.choice([0, 0, 6, 8, 16, 32, rng.randint(0, 80)])) for _ in range(length)]
-    return [rng.choice([0.0, 6.0, 16.0, 32.0, 7.5, 12.125, round(rng.uniform(0, 64), 3), rng.uniform(0, 64)])
+    vals = [rng.choice([0.0, 6.0, 16.0, 32.0, 7.5, 12.125, round(rng.uniform(0, 64), 3), rng.uniform(0, 64)])
             for _ in range(length)]
+    if kind == "np32":
+        import numpy as np
+        vals = [float(np.float32(v)) for v in vals]
+    return vals
 
 
-KINDS = ["int", "float", "np64", "array", "intarray", "mix"]
+KINDS = ["int", "float", "np64", "np32", "array", "intarray", "mix"]
 
 
 def rand_submission(rng, station_nums, it, width, drained, malformed=None):
@@ -165,8 +172,10 @@ def enc_station(name):
 # ---------------------------------------------------------------------------------------------
 # stream 1: a whole run()
 # ---------------------------------------------------------------------------------------------
-def make_network(station_nums, with_sim_ref=True):
-    from acnportal.acnsim.network import ChargingNetwork
+def make_network(station_nums, constraints=()):
+    """constraints: [(limit, [station nums])] -> sum of the stations' currents <= limit (often violated by the
+    scripted schedules: _update_schedules only warns about infeasible schedules, it must still apply them)"""
+    from acnportal.acnsim.network import ChargingNetwork, Current
     from acnportal.acnsim.models import EVSE
 
     class RecNet(ChargingNetwork):
@@ -185,7 +194,19 @@ def make_network(station_nums, with_sim_ref=True):
     net = RecNet()
     for n in station_nums:
         net.register_evse(EVSE(name_of(n), max_rate=BIG, min_rate=0), 240, 0)
+    for j, (limit, members) in enumerate(constraints):
+        net.add_constraint(Current([name_of(m) for m in members]), limit, "lim%d" % j)
     return net
+
+
+def rand_constraints(rng, pool):
+    if not pool or rng.random() < 0.5:
+        return []
+    out = []
+    for _ in range(rng.choice([1, 1, 2])):
+        members = [m for m in pool if rng.random() < 0.7] or [pool[0]]
+        out.append([rng.choice([1, 10, 40, 1000]), members])
+    return out
 
 
 def make_events(inp):
@@ -221,11 +242,18 @@ def run_sim(inp, provider):
             sim = self.sim
             it = int(sim._iteration)
             sub = provider(len(calls), it, int(sim.pilot_signals.shape[1]), bool(sim.event_queue.empty()))
+            seen = {}
+            try:
+                applied = self.interface.last_applied_pilot_signals
+                st_of = {ev.session_id: ev.station_id for ev in sim.network.active_evs}
+                seen = {st_of[sid]: float(v) for sid, v in applied.items() if sid in st_of}
+            except Exception as e:  # noqa
+                seen = {"error": type(e).__name__}
             calls.append(dict(it=it, last=sim.event_queue.get_last_timestamp(),
-                              empty=bool(sim.event_queue.empty()), sub=sub))
+                              empty=bool(sim.event_queue.empty()), sub=sub, seen_prev=seen))
             return build_sched(sub)
 
-    net = make_network(inp["stations"])
+    net = make_network(inp["stations"], inp.get("constraints", ()))
     queue, evs = make_events(inp)
     last0 = queue.get_last_timestamp()
     alg = Scripted(inp["max_recompute"])
@@ -234,10 +262,18 @@ def run_sim(inp, provider):
     alg.sim = sim
     exc = None
     try:
-        sim.run()
+        with warnings.catch_warnings():
+            warnings.simplefilter("ignore")
+            sim.run()
     except Exception as e:  # noqa
         exc = type(e).__name__
-    return dict(exc=exc, last0=last0, ids=[num_of(s) for s in net.station_ids],
+    try:
+        df = sim.pilot_signals_as_df()
+        df_ok = list(df.columns) == list(net.station_ids) and \
+            [[float(x) for x in df[c]] for c in df.columns] == [[float(x) for x in r] for r in sim.pilot_signals]
+    except Exception:  # noqa
+        df_ok = False
+    return dict(exc=exc, last0=last0, ids=[num_of(s) for s in net.station_ids], df_ok=df_ok,
                 rows=[[float(x) for x in r] for r in sim.pilot_signals],
                 wid=int(sim.pilot_signals.shape[1]), iter=int(sim._iteration),
                 periods=net.rec, calls=calls,
@@ -263,7 +299,7 @@ def rand_run_input(rng):
         k = 0
     recomputes = sorted(rng.randint(0, horizon) for _ in range(k))
     return dict(stations=pool, sessions=sessions, recomputes=recomputes,
-                max_recompute=rng.choice([None, None, 1, 2, 5]))
+                max_recompute=rng.choice([None, None, 1, 2, 5]), constraints=rand_constraints(rng, pool))
 
 
 def trace_of(impl):
@@ -301,6 +337,7 @@ def run_case(inp, impl):
         ("+drained" if "drained" in kinds else "")
     return dict(input=dict(stream="run", **inp, script=subs), impl=impl, coq=coq, ambiguous=False, kind=tag,
                 sig=["run", inp["stations"], inp["sessions"], inp["recomputes"], inp["max_recompute"],
+                     inp.get("constraints"),
                      [[(r["station"], r["vals"]) for r in s] for s in subs]],
                 nontrivial=any(len(s) > 0 for s in subs))
 
@@ -373,7 +410,7 @@ def run_upd(inp):
     from acnportal.acnsim.events import EventQueue, RecomputeEvent
     from acnportal.acnsim.models import EV, Battery
     from acnportal.algorithms import BaseAlgorithm
-    net = make_network(inp["stations"])
+    net = make_network(inp["stations"], inp.get("constraints", ()))
     evs = []
     for i, s in enumerate(inp["plugged"]):
         ev = EV(0, 1000, 50, name_of(s), "sess-%d" % i, Battery(100, 10, 100))
@@ -391,7 +428,9 @@ def run_upd(inp):
     before = digest(sim, evs)
     exc = None
     try:
-        sim._update_schedules(build_sched(inp["sub"]))
+        with warnings.catch_warnings():
+            warnings.simplefilter("ignore")
+            sim._update_schedules(build_sched(inp["sub"]))
     except Exception as e:  # noqa
         exc = type(e).__name__
     after = digest(sim, evs)
@@ -414,7 +453,8 @@ def rand_upd_input(rng):
     mal = rng.choice([None, None, None, None, None, "unknown", "ragged", "both"])
     sub = rand_submission(rng, pool, it, width, last is None, malformed=mal)
     plugged = [s for s in pool if rng.random() < 0.5]
-    return dict(stations=pool, iteration=it, matrix=matrix, width=width, last=last, plugged=plugged, sub=sub)
+    return dict(stations=pool, iteration=it, matrix=matrix, width=width, last=last, plugged=plugged, sub=sub,
+                constraints=rand_constraints(rng, pool))
 
 
 def upd_case(inp, impl):
@@ -439,8 +479,11 @@ def run_incw(inp):
     from acnportal.acnsim.simulator import _increase_width
     a = np.array(inp["matrix"], dtype=float).reshape((inp["n"], inp["width"]))
     a0 = a.copy()
-    b = _increase_width(a, inp["target"])
-    return dict(rows=[[float(x) for x in r] for r in b], wid=int(b.shape[1]), n=int(b.shape[0]),
+    try:
+        b = _increase_width(a, inp["target"])
+    except Exception as e:  # noqa
+        return dict(exc=type(e).__name__, rows=[], wid=-1, n=-1, input_untouched=bool((a == a0).all()))
+    return dict(exc=None, rows=[[float(x) for x in r] for r in b], wid=int(b.shape[1]), n=int(b.shape[0]),
                 input_untouched=bool((a == a0).all()))
 
 
@@ -452,8 +495,9 @@ def incw_case(rng):
     target = max(target, 0)
     inp = dict(stream="incw", n=n, width=width, matrix=matrix, target=target)
     impl = run_incw(inp)
-    coq = "{| w_rows := %s; w_wid := %s; w_target := %s; iw_rows := %s; iw_wid := %s |}" % (
+    coq = "{| w_rows := %s; w_wid := %s; w_target := %s; iw_exc := %s; iw_rows := %s; iw_wid := %s |}" % (
         coq_list([coq_list([q(x) for x in r]) for r in matrix]), zlit(width), zlit(target),
+        coq_opt(impl["exc"], coq_str),
         coq_list([coq_list([q(x) for x in r]) for r in impl["rows"]]), zlit(impl["wid"]))
     return dict(input=inp, impl=impl, coq=coq, ambiguous=False,
                 kind="incw/" + ("keep" if target <= width else "grow"), sig=["incw", n, width, target, matrix],
@@ -543,6 +587,19 @@ def monitor_run(case):
             if p["pilots"][s] != want:
                 return "station %s got pilot %r in period %d, the submitted schedules say %r" % (
                     name_of(num), p["pilots"][s], p["it"], want)
+    if not impl.get("df_ok", True):
+        return "pilot_signals_as_df() is not the transpose of pilot_signals with the stations as columns"
+    # what the next scheduler call is told (Interface.last_applied_pilot_signals) about period it-1
+    for c in calls:
+        seen = c.get("seen_prev") or {}
+        if "error" in seen:
+            return "Interface.last_applied_pilot_signals raised %s" % seen["error"]
+        upto = [(t0, sub) for t0, sub in accepted if t0 <= c["it"] - 1]
+        for station, v in seen.items():
+            want = spec_value(upto, station, c["it"] - 1)
+            if v != want:
+                return "scheduler at period %d was told %r was applied at %s in period %d, the submitted schedules say %r" % (
+                    c["it"], v, station, c["it"] - 1, want)
     if [p["it"] for p in impl["periods"]] != list(range(len(impl["periods"]))):
         return "periods are not consecutive"
     perm = impl.get("perm")
@@ -592,6 +649,8 @@ def monitor_upd(case):
 def monitor_incw(case):
     inp, impl = case["input"], case["impl"]
     w, t = inp["width"], inp["target"]
+    if impl.get("exc"):
+        return "_increase_width(%d -> %d) raised %s" % (w, t, impl["exc"])
     if impl["wid"] != max(w, t) or impl["n"] != inp["n"]:
         return "_increase_width(%d -> %d) returned width %d" % (w, t, impl["wid"])
     for s in range(inp["n"]):
@@ -629,7 +688,7 @@ def rerun(inp):
     st = inp["stream"]
     if st == "run":
         script = inp["script"]
-        base = {k: inp[k] for k in ("stations", "sessions", "recomputes", "max_recompute")}
+        base = {k: inp[k] for k in ("stations", "sessions", "recomputes", "max_recompute", "constraints") if k in inp}
         impl = run_sim(base, lambda k, it, w, d: script[k] if k < len(script) else [])
         return run_case(base, impl)
     if st == "upd":
